@@ -83,6 +83,11 @@ class Eval:
                 if x < y:
                     raise ErrPath()
                 return x - y
+            if nm == "next_multiple_of" and len(t["a"]) == 2:
+                x, m = self.poly(sym.operand(t["a"][0])), self.poly(sym.operand(t["a"][1]))
+                if m <= 0:
+                    raise ErrPath()
+                return -(-x // m) * m
             if nm in OPTION_TRANSPARENT and t["a"]:
                 return self.poly(sym.operand(t["a"][0]))
             tg = [u for u in self.p.targets(fn, t) if u in self.p.fns and self.p.fns[u].blocks and u.startswith("poulpy_ckks::")]
